@@ -25,9 +25,10 @@ let get_fault = function
   | L [s; c; k] -> (get_site s, (get_cls c, get_nat k))
   | _ -> bad "fault"
 let get_writer path = function
-  | L [pid; tid; nt; buffered; colls; split; plan; cb] ->
+  | L [pid; tid; nt; buffered; colls; split; plan; shorts; retry; cb] ->
       { TF.w_path = path; w_pid = get_n pid; w_tid = get_n tid; w_nt = get_bool nt; w_buffered = get_bool buffered;
         w_colls = get_list get_coll colls; w_split = get_list get_nat split; w_plan = get_list get_fault plan;
+        w_short = get_list (get_pair get_nat get_nat) shorts; w_retry = get_bool retry;
         w_catch_base = get_bool cb }
   | _ -> bad "writer"
 let get_fs = get_list (get_pair get_str get_str)
@@ -44,6 +45,9 @@ let register (reg : string -> (Sx.t list -> Sx.t) -> unit) =
            put_list (put_opt (put_opt put_err)) outs;
            put_fs f']
     | _ -> bad "c18_run");
+  reg "c18_split" (fun a -> match a with
+    | [path] -> let p = get_str path in L [put_str (TF.dir_of p); put_str (TF.base_of p)]
+    | _ -> bad "c18_split");
   reg "c18_tmp" (fun a -> match a with
     | [path; pid; tid] -> put_str (TF.tmp_name (get_str path) (get_n pid) (get_n tid))
     | _ -> bad "c18_tmp")
